@@ -153,8 +153,8 @@ def family(tier):
         F.append(("ops2", [x, y], {"a": cust([op(1, "tap"), op(2, "toggle")]), "b": cust([op(2, "press")], [op(1, "toggle")])},
                   [(0, "press"), (0, "release"), (1, "tap")], 4, 3))
         F.append(("three", [x, VK_LWH(1), VK_MAC("y", "z")],
-                  {"a": cust([op(1, "toggle"), op(2, "toggle")]), "p": probe(), "b": cust([op(3, "tap")])},
-                  [(0, "tap"), (1, "press"), (1, "release"), (2, "press")], 4, 3))
+                  {"a": cust([op(1, "toggle"), op(2, "toggle")]), "p": probe()},
+                  [(0, "tap"), (1, "release"), (2, "press")], 3, 2))
         F.append(("hfd_idle", [x], {"a": cust([hfd(1, 3)]), "b": cust([idle(1, "toggle", 3)])},
                   [(0, "toggle")], 3, 3))
         F.append(("macro2", [x, y],
@@ -244,6 +244,44 @@ def finding_scripts(kdesc, direct):
     return out
 
 
+def seq_instance():
+    """The sequence-termination trigger (defseq): not in the L1 model; covered by recorded traces only."""
+    vks = [VK_KEY("x"), VK_KEY("y")]
+    kdesc = {"l": sldr(), "a": seqkey(), "b": seqkey(), "c": seqkey()}
+    return vks, kdesc, [(["a", "b"], 1), (["b"], 2)], 50
+
+
+def seq_script(rng, n_segments):
+    """Segments of direct operations (drained) alternating with: leader, then keys that end sequence mode
+    (a b -> tap v1, b -> tap v2, anything else cancels).  No virtual key event is in flight while the mode is on
+    (its output key would be taken as sequence input - C12's subject)."""
+    C = cfgdesc.code
+    s = []
+    for _ in range(n_segments):
+        pend = 0
+        for _ in range(rng.randint(0, 3)):
+            o = rng.choice(["press", "release", "tap"])
+            s.append(["fk", rng.choice([0, 1]), o])
+            pend += 2
+            g = rng.choice([0, 1, 2])
+            if g:
+                s.append(["t", g])
+                pend = max(0, pend - g)
+        s.append(["t", pend + 2])
+        burst = rng.random() < 0.3
+        for k in ["l"] + rng.choice([["a", "b"], ["b"], ["c"], ["a", "c"], ["a", "b"]]):
+            s.append(["d", C(k)])
+            g = 0 if burst else rng.choice([0, 1, 2])
+            if g:
+                s.append(["t", g])
+            s.append(["u", C(k)])
+            g = 0 if burst else rng.choice([0, 1, 3])
+            if g:
+                s.append(["t", g])
+        s.append(["t", 14])
+    return s
+
+
 def run(tier, seed):
     pid = "C18"
     res = flow.Result(pid, tier, seed)
@@ -272,13 +310,25 @@ def run(tier, seed):
         scripts = [rand_script(rng, kdesc, alld if j % 2 else direct, rng.randint(4, 30 if tier == "quick" else 120),
                                [0, 0, 1, 1, 2, D - 1, D, D + 1, 2 * D + 2], 30, clean=j % 4 != 3) for j in range(n)]
         jobs_random.append({"cfg": kbd, "params": params, "tag": "r:" + name, "scripts": scripts})
+    vks, kdesc, seqs, st = seq_instance()
+    kbd, params = make(vks, kdesc, seqs, st)
+    jobs_random.append({"cfg": kbd, "params": params, "tag": "s:seq",
+                        "scripts": [seq_script(rng, rng.randint(1, 5)) for _ in range(30 if tier == "quick" else 200)]})
+    res.samples.append({"instance": "seq (recorded traces only)", "kbd": kbd})
     for label, jobs in (("witness", witness_jobs), ("random", jobs_random)):
         if not jobs:
             continue
         jobs = shard_local_index(jobs)
         errs, trace = record_and_validate(res, "P_C18", jobs, wd, "c18_" + label)
-        for e in errs:
+        seen = {}
+        res.extra["rejected_traces_" + label] = len(errs)
+        for e in sorted(errs, key=lambda e: len(script_of(jobs, e["job"], 0)[1])):
             j, s = script_of(jobs, e["job"], 0)
+            # at most 3 replay files (the shortest histories) per rejection message and configuration
+            k = (e["err"], j["cfg"])
+            seen[k] = seen.get(k, 0) + 1
+            if seen[k] > 3:
+                continue
             flow.classify(res, pid, e["err"], e["err"] + " cfg=" + j["cfg"],
                           {"property": pid, "cfg": j["cfg"], "params": j["params"], "script": s, "err": e["err"],
                            "monitor": "P_C18"},
